@@ -14,4 +14,5 @@ func raceDisable()                      { runtime.RaceDisable() }
 func raceEnable()                       { runtime.RaceEnable() }
 func raceAcquire(p unsafe.Pointer)      { runtime.RaceAcquire(p) }
 func raceReleaseMerge(p unsafe.Pointer) { runtime.RaceReleaseMerge(p) }
+func raceRelease(p unsafe.Pointer)      { runtime.RaceRelease(p) }
 func raceErrors() int                   { return runtime.RaceErrors() }
